@@ -658,6 +658,7 @@ class StatsCtx(FsmCtx):
         FsmCtx.__init__(self, cfg, tier)
         self.rx_counts = {}      # cid -> {key: n} frames of >= minimum length handed to the agent while it was reading
         self.rx_pending = {}
+        self.rx_stat_dead = set()
         self.tx_dropped = {}
         self.final_done = False
 
@@ -718,6 +719,8 @@ class StatsCtx(FsmCtx):
                         self.stats["rest_send_lost_in_flight_at_close"] += 1
             if e[2] == "rx":
                 cid = e[3]
+                if cid in self.rx_stat_dead:
+                    continue        # after a framing violation nothing on this connection is attributable
                 buf = self.rx_pending.get(cid, b"") + bytes.fromhex(e[4])
                 frames, rest = rp.deframe(buf)
                 dead = False
@@ -733,6 +736,8 @@ class StatsCtx(FsmCtx):
                         cnt.setdefault("runt:" + key, 0)
                         cnt["runt:" + key] += 1
                 self.rx_pending[cid] = b"" if dead else rest
+                if dead:
+                    self.rx_stat_dead.add(cid)
         if op[0] == "rest" and op[2].endswith("/statistic") and w.last_rest.get("status") == 200:
             self.compare(cell)
 
